@@ -23,6 +23,7 @@ desc = {
 from __future__ import annotations
 
 import asyncio
+import os
 import random
 from typing import Any
 
@@ -162,7 +163,7 @@ def run_world(desc: dict[str, Any], *, scoped: bool = True, capture_logs: bool =
             vals = lag.get('own', lag.get('values', [0.0])) if own else lag.get('foreign', lag.get('values', [0.0]))
             return rng.choice(vals)
         kube.lag_fn = lag_fn
-    kube.post_yields = int(desc.get('post_yields', 0))
+    kube.post_yields = int(os.environ.get('KV_POST_YIELDS') or desc.get('post_yields', 0))      # the env override is for exploration runs only
     # Requests take 1us of virtual time by default: in reality every cycle costs wall time, so float noise such as
     # 'age = 2.9999999999999996 < backoff = 3' resolves itself; with a frozen clock it would re-arm forever at one instant.
     kube.base_latency = float(desc.get('latency', 1e-6))
